@@ -82,6 +82,7 @@ def rule_json(ctx):
     else:
         roots = [x for x in T.value_alts(meta)]
         base_ok = True
+        copied_all = False
         vals = []
         for alt in roots:
             b = alt
@@ -90,6 +91,13 @@ def rule_json(ctx):
                     vals.append((b[2], b[3]))
                 b = b[1]
             if b[0] == 'carried':
+                continue
+            ATTRS = (('attr', SELF, 'attrs'), ('attr', SELF, '_attrs'), ('call', ('attr', SELF, '_metadata'), (), ()))
+            if b[0] == 'call' and T.dotted(b[1]) == 'dict' and len(b[2]) == 1 and not b[3] and b[2][0] in ATTRS:
+                copied_all = True          # dict(<the attrs>): a fresh dictionary holding every entry (entries json cannot write are taken out of the copy afterwards)
+                continue
+            if b[0] == 'call' and T.call_name(b) == 'copy' and not b[2] and T.call_receiver(b) in ATTRS:
+                copied_all = True
                 continue
             if not (b == ('dict', ()) or (b[0] == 'call' and T.dotted(b[1]) == 'dict' and not b[2])):
                 base_ok = False
@@ -103,6 +111,8 @@ def rule_json(ctx):
             bad = [x for k, x in vals if not (x[0] == 'sub' and x[2] == k)]
             ctx.violated('R1', w, "meta[m] = " + T.show((bad or [vals[0][1]])[0])[:100], 'metadata values must be read from the attrs dictionary (self.attrs[key]): getattr(self, key) returns the '
                          'class member / axis labels when the key collides with one')
+        elif copied_all:
+            ctx.holds('R1', "writer: 'meta' <- a copy of the attrs dictionary (pruned of what json cannot write)")
         else:
             ctx.violated('R1', w, "'meta' content", 'no metadata entry is ever written')
     # the probe `json.dumps(val)` that decides whether an entry can be written protects one entry: a try statement that encloses the whole loop over the
@@ -233,7 +243,11 @@ def rule_json(ctx):
     # _metadata(meta) updates attrs
     mf = ctx.fn('dimarray.core.bases.AbstractHasMetadata._metadata')
     ev = run(ctx, mf)
-    if not any(T.call_name(e.a) == 'update' and e.a[2] == (P_('meta'),) and T.call_receiver(e.a) in (('attr', SELF, 'attrs'), ('attr', SELF, '_attrs')) for p in ev.paths for e in p.calls('update')):
+    AT = (('attr', SELF, 'attrs'), ('attr', SELF, '_attrs'))
+    by_update = any(T.call_name(e.a) == 'update' and e.a[2] == (P_('meta'),) and T.call_receiver(e.a) in AT for p in ev.paths for e in p.calls('update'))
+    # ... or entry by entry: attrs[name] = value in a loop over what `meta` holds
+    by_loop = any(e.kind == 'store_sub' and e.a in AT and e.loops and T.contains(e.b, P_('meta')) and T.contains(e.c, P_('meta')) for p in run(ctx, mf, mode='join').paths for e in p.events)
+    if not (by_update or by_loop):
         ctx.violated('R1', mf, '_metadata', '_metadata(meta) stores the entries into attrs')
 
 
